@@ -11,18 +11,18 @@ MODULE = "Properties.C13"
 THEOREMS = ["c13_windows", "c13_no_bypass", "c13_retry_window", "c13_not_evicted_by_one", "c13_eviction_clean", "c13_eviction_contact"]
 DRIVER = "D_Hash"
 ORACLE = "O_C13"
-TECHNIQUE = ("Coq proof on a hand-written Gallina model of HashClient: the probing bounds for every history of single-key calls "
+TECHNIQUE = ("Coq proof on a hand-written Gallina model of HashClient: the probing bounds for every history of key-addressed calls "
              "(an invariant coupling each server's failure/eviction record with its contact log, linked to the executable oracle "
              "windows_ok), plus the per-call decision rules (no contact inside the retry window, one failure does not evict, "
              "eviction is clean, healthy servers are never bypassed); model tied to the code by a differential run with a virtual "
              "clock; the same oracle and the remaining clauses are checked on the real class")
 LEVEL_TEXT = ("c13_windows: for every placement function that returns nodes in rotation, every configuration with retry_attempts >= 0 "
               "and retry_timeout < dead_timeout, every set of servers, every non-decreasing clock script, every outcome script of "
-              "successes and OSError-class failures and every history of single-key commands, delete_many and ticks (unbounded "
-              "length), the contact log of EVERY server passes Spec.Failover.windows_ok: at most 2 failing contacts in any "
+              "successes and OSError-class failures and every history of single-key commands, set_many, get_many/gets_many, "
+              "delete_many and ticks (unbounded length), the contact log of EVERY server passes Spec.Failover.windows_ok: at most 2 failing contacts in any "
               "retry_timeout window and at most retry_attempts+2 in any dead_timeout window. Proved for every state: c13_no_bypass, "
               "c13_retry_window, c13_not_evicted_by_one, c13_eviction_clean (no KeyError/ValueError, only the evicted server "
-              "changes), c13_eviction_contact. PARTIAL: set_many/get_many inside c13_windows, rerouting, recovery within two "
+              "changes), c13_eviction_contact. PARTIAL: rerouting, recovery within two "
               "dead_timeout periods and the escape classes over whole histories are checked by blip episodes and random long "
               "histories on the real class (same oracle), not proved.")
 LEVEL_NOTE = ("Trusted: Coq kernel; hand model's correspondence with hash.py (random histories of key-addressed calls, clock "
@@ -34,7 +34,7 @@ TRUSTED = ["Coq 8.16.1 kernel; no axioms",
            "extraction: ExtrOcamlBasic only; coq/Extract/ocaml/driver.ml"]
 ASSUMPTIONS = ["retry_timeout < dead_timeout", "a failing server raises an OSError-family error; non-key-addressed calls (flush_all, stats, quit, close) are outside the statement",
                "the clock does not go back (time.time() readings non-decreasing)",
-               "c13_windows covers single-key calls; multi-server calls (set_many, get_many) are checked with the same oracle"]
+               "inner calls succeed or raise an OSError-class error (c13_windows' outcome hypothesis)"]
 
 SERVERS = [("10.0.0.1", 11211), ("10.0.0.2", 11211), ("10.0.0.3", 11211)]
 KEYS = ["k%d" % i for i in range(8)]
